@@ -445,6 +445,16 @@ impl Graph {
                     graph.errors.push(GraphError::EmptyMatch(LeafId(leaf_id)));
                 }
             }
+            // The minimum length is unknown for patterns that contain an empty class
+            // (`(?:[^\s\S]|b)*`): some pattern matches the empty string, never return a graph
+            // without states and without an error.
+            if graph.errors.is_empty() {
+                for (leaf_id, leaf) in graph.leaves.iter().enumerate() {
+                    if leaf.pattern.hir().properties().minimum_len().is_none() {
+                        graph.errors.push(GraphError::EmptyMatch(LeafId(leaf_id)));
+                    }
+                }
+            }
             return Ok(graph);
         }
 
